@@ -174,3 +174,18 @@ LEVEL_TEXT.update({
     'C17': 'Parser-combinator model whose combinators are proved once to be total, local and prefix-rejecting; the two formats inherit these by construction for every input, plus explicit round-trip and work-bound theorems; record layouts regenerated from the source. Tied to the real readers on generated files, every cut point of small files, hostile counts in every count field, random bytes and the two shipped files, under a counting allocator.',
 })
 NOT_APPLICABLE.pop('C17', None)
+
+PROPS.update({
+    'C16': dict(gens=['vehicle'], coq_targets=['Props/C16.vo'], coqchk_modules=['Props.C16'], group='core', harness='c16', axioms_allowed=[],
+        proved=['parse is a total structurally recursive function over the character list (cannot loop or panic)',
+                'whatever parses with a finite number prints to a text that parses back to an equal version; the letter is case-insensitive; every parsed version has an upper-case ASCII letter (under the named std-oracle hypotheses)',
+                'comparison is reflexive, consistent with equality, antisymmetric, transitive and total: lexicographic (number, letter, revision or 0); a missing revision equals revision 0'],
+        modelled=['GameVersion FromStr / Display / PartialEq / Ord are hand-modelled (Core/GameVersion.v) and tied by correspondence (real code vs extracted model, the std oracles answered per case by the harness)',
+                  'std oracles (Section hypotheses, validated each run): char::is_numeric = is_ascii_digit on ASCII; f32 Display of a non-negative finite value is digits with at most one dot and FromStr inverts it; usize Display/FromStr round trip; the empty string does not parse',
+                  'f32::partial_cmp on the parser\'s domain (non-negative, not NaN) is modelled as the unsigned order of the IEEE-754 bit patterns, validated on adjacent bit patterns (all 2^31 in the thorough tier); no Flocq / real-number axioms are used'],
+        assumptions=['the 8-byte wire form of the version (Ver packet) is covered by C01/C04 (CGameVersion custom) at the byte level']),
+})
+LEVEL_TEXT.update({
+    'C16': 'Theorems about a Gallina model of the three-phase parser, the printer and the order, over named hypotheses on the std oracles (float / integer text conversion, Unicode numeric class) that the harness validates on every run (exhaustively over all non-negative f32 in the thorough tier); tied to the real GameVersion exhaustively over a class alphabet, on known versions, random strings and random triples for the order.',
+})
+NOT_APPLICABLE.pop('C16', None)
